@@ -416,14 +416,14 @@ func c07(w *core.World, r *core.Report) {
 					continue
 				}
 				ok := false
-				for _, gd := range core.GuardsOf(ret) {
-					v, neg := core.StripNot(gd.If.Cond)
-					val := gd.CondTrue()
-					if neg {
-						val = !val
+				for _, a := range core.GuardAtoms(ret) {
+					if !a.True {
+						continue
 					}
-					if val && core.FieldOf(v) == "datastore/clients/schema.schemaIndexEntry.ready" {
-						ok = true
+					for _, o := range append(core.Origins(a.Cond), a.Cond) {
+						if core.FieldOf(o) == "datastore/clients/schema.schemaIndexEntry.ready" {
+							ok = true // directly, or through an accessor of the entry
+						}
 					}
 				}
 				r.Check(ok, "MEMO-SUCCESS-ONLY", core.Site(retrieve, "memoised return"), w.InstrPos(ret), "the memoised answer is used only when the entry is ready")
@@ -552,6 +552,22 @@ func modifyStore(m ssa.CallInstruction) string {
 		}
 	}
 	if al == nil {
+		// built by a constructor (cache.NewOpts(store, ...))
+		if v, _ := optsField(m, "Store"); v != nil {
+			if n, isC := core.ConstInt(v); isC {
+				switch n {
+				case 0:
+					return "CONFIG"
+				case 1:
+					return "STATE"
+				case 2:
+					return "INTENDED"
+				case 3:
+					return "INTENTS"
+				}
+			}
+			return "dynamic"
+		}
 		return "?"
 	}
 	for _, ref := range *al.Referrers() {
